@@ -243,6 +243,8 @@ def coq_impl_inner(line, malformed):
     u = mc.unesc
     if line == "PANIC":
         return "POther", "panic"
+    if line == "HANG":
+        return "POther", "hang"
     p = line.split("|")
     if p[0] == "OK":
         nss = "None" if p[3] == "-" else "(Some %s)" % core.coq_list([S(u(x)) for x in p[3][1:-1].split("&") if x != ""])
@@ -328,6 +330,8 @@ def run(ctx):
         lines = mc.run_harness(exes[fmt], [m["dir"] for m in ms], mode="cfg")
         for m, line in zip(ms, lines):
             m["line"] = line
+    not_run = sum(1 for m in metas if m["line"] == "NOTRUN")
+    metas = [m for m in metas if m["line"] != "NOTRUN"]
     items = []
     for m in metas:
         impl, tag = coq_impl(m["line"], m["cfg"]["malformed"] is not None)
@@ -397,7 +401,8 @@ def run(ctx):
         "samples": [{"cargo_toml": m["cargo_toml"], "format": m["fmt"], "impl": m["line"].replace(m["dir"], "<dir>")[:400]}
                     for m in metas[:2] + metas[-3:]],
         "traces_validated_against_impl": len(metas), "disagreements": len(dis), "spec_failures_on_impl": len(bad),
-        "skipped_outside_model": len(skipped), "inherits_subtable_cases_diverging": len(sub_bad),
+        "skipped_outside_model": len(skipped), "hangs": sum(1 for m in metas if m["tag"] == "hang"),
+        "not_run_after_hangs": not_run, "inherits_subtable_cases_diverging": len(sub_bad),
         "inherits_subtable_cases": sum(1 for m in metas if is_subtable(m)),
         "input_distribution": hist, "audit_problems": problems, "pairwise": pw,
     }, assumptions=[
